@@ -35,15 +35,17 @@ Variable U : ufuns.
 (* the destination variable, the source variable, the document the source
    variable holds, the object the destination variable points to, the loop
    counters and the variable table: none of them is written by these rules *)
-Variables (dk sk : bytes) (doc : json) (oid : nat) (lc : list Z) (vs : list (bytes * val * insk)).
+Variables (dk sk : bytes) (doc : json) (oid : nat) (lc : list Z) (vs : list (bytes * val * insk)) (s0 : list obj).
 Hypothesis dk_not_ctx : is_ctx_name dk = false.
 Hypothesis vs_dst : find_var vs dk = Some (VObj oid [], InsObj).
 Hypothesis vs_src : find_var vs sk = Some (VNode doc, InsVector).
 
 (* the states the block runs through: no pending error, the counters and the
-   variables as given, the destination object currently [ob] *)
+   variables as given, the destination object currently [ob], every other
+   object as in the store [s0] the block started with *)
 Definition St (c : ctx) (ob : obj) : Prop :=
-  cerr c = None /\ bufLC c = lc /\ vars c = vs /\ nth_error (store c) oid = Some ob.
+  cerr c = None /\ bufLC c = lc /\ vars c = vs /\ nth_error (store c) oid = Some ob /\
+  forall j, j <> oid -> nth_error (store c) j = nth_error s0 j.
 
 (* one field write *)
 Lemma write_field c ob path fk fld fld' x insn :
@@ -54,7 +56,7 @@ Lemma write_field c ob path fk fld fld' x insn :
              store c' = set_nth_l (store c) oid (oupdate ofuel ob [fk] fld') /\
              trace c' = trace c /\ ncalls c' = ncalls c.
 Proof.
-  intros (Hce & Hlc & Hvs & Hob) Hs Hf Ha.
+  intros (Hce & Hlc & Hvs & Hob & Hoth) Hs Hf Ha.
   unfold ctx_set_path.
   destruct path as [|p0 p']; [discriminate Hs|].
   assert (Hne : vars c <> []) by (rewrite Hvs; intro E; rewrite E in vs_dst; discriminate vs_dst).
@@ -66,7 +68,8 @@ Proof.
   eexists. split; [reflexivity|].
   unfold St. cbn [cerr bufLC vars store trace ncalls w_cerr w_store w_bufX].
   repeat split; try assumption; try congruence.
-  eapply nth_error_set_nth_l_same. exact Hob.
+  - eapply nth_error_set_nth_l_same. exact Hob.
+  - intros j Hj. rewrite nth_set_nth_l_other by congruence. apply Hoth. exact Hj.
 Qed.
 
 (* the two shapes of rule: `dst = "literal"` and `dst = src.path` *)
@@ -92,12 +95,21 @@ Proof.
   destruct (ctx_get c (src r) (subset r)) as [c1 raw]. destruct (cerr c1); reflexivity.
 Qed.
 
-(* what a rule assigns: its literal, or the value its path selects in the document *)
+(* what a rule assigns: its literal; the value its path selects in the
+   document; the value of a static (or context) variable; a field of an object
+   other than the destination object *)
 Definition rule_src (r : node) (x : val) : Prop :=
   typ r = typeOperator /\ callback r = false /\ getter r = false /\
   ((static r = true /\ x = VBytes (src r)) \/
    (static r = false /\ mods r = [] /\ subset r = [] /\
-    exists rest, split_path (src r) = sk :: rest /\ x = VNode (jget doc rest))).
+    exists rest, split_path (src r) = sk :: rest /\ x = VNode (jget doc rest)) \/
+   (static r = false /\ mods r = [] /\ subset r = [] /\
+    exists tk rest, split_path (src r) = tk :: rest /\ find_var vs tk = Some (x, InsStatic) /\
+                    (forall j, x <> VNode j)) \/
+   (static r = false /\ mods r = [] /\ subset r = [] /\
+    exists tk rest oid2 pre ob2 fl, split_path (src r) = tk :: rest /\
+      find_var vs tk = Some (VObj oid2 pre, InsObj) /\ oid2 <> oid /\
+      nth_error s0 oid2 = Some ob2 /\ oresolve ofuel ob2 (pre ++ rest) = RField fl /\ x = val_of_fval fl)).
 
 (* rule [r] is `dk.F = ...` with F = [fst e], and the cascade turns the value
    it assigns into [snd e] for that field of [ob] *)
@@ -117,7 +129,8 @@ Lemma rule_step f r e c ob :
 Proof.
   intros HS (Hd & x & fld & (Ht & Hcb & Hg & Hk) & Hf & Ha).
   assert (Hnd : nonempty (dst r) = true) by (destruct (dst r); [discriminate Hd|reflexivity]).
-  destruct Hk as [(Hst & ->)|(Hst & Hm & Hsub & rest & Hs & ->)].
+  assert (Hne0 : vs <> []) by (intro E; rewrite E in vs_dst; discriminate vs_dst).
+  destruct Hk as [(Hst & ->)|[(Hst & Hm & Hsub & rest & Hs & ->)|[(Hst & Hm & Hsub & tk & rest & Hs & Hv & Hnn)|(Hst & Hm & Hsub & tk & rest & oid2 & pre & ob2 & fl & Hs & Hv & Hne2 & Ho2 & Hr & ->)]]].
   - rewrite (follow_static_assign f r c Ht Hcb Hg Hst Hnd).
     assert (HS' : St (w_lenBB c (S (lenBB c))) ob) by exact HS.
     destruct (write_field _ ob (dst r) (fst e) fld (snd e) (VBytes (src r)) (ins r) HS' Hd Hf) as (c' & E & K).
@@ -125,16 +138,61 @@ Proof.
     exists c'. split; [exact E|]. exact K.
   - assert (Hns : nonempty (src r) = true) by (destruct (src r); [discriminate Hs|reflexivity]).
     rewrite (follow_path_assign f r c Ht Hcb Hg Hst Hnd Hns Hm).
-    destruct HS as (Hce & Hlc & Hvs & Hob).
+    destruct HS as (Hce & Hlc & Hvs & Hob & Hoth).
     unfold ctx_get. rewrite Hsub.
-    destruct (src r) as [|s0 s'] eqn:Es; [discriminate|].
+    destruct (src r) as [|s0' s'] eqn:Es; [discriminate|].
     change (vars (w_bufX c VNil)) with (vars c).
-    assert (Hne : vars c <> []) by (rewrite Hvs; intro E; rewrite E in vs_dst; discriminate vs_dst).
+    assert (Hne : vars c <> []) by (rewrite Hvs; exact Hne0).
     destruct (vars c) as [|v0 vr] eqn:Ev; [congruence|].
     rewrite Hvs, Hs, vs_src. cbn [cerr w_bufX]. rewrite Hce.
     set (c1 := w_bufX (w_bufX c VNil) (VNode (jget doc rest))).
     assert (HS' : St c1 ob) by (unfold St, c1; cbn [cerr bufLC vars store w_bufX]; repeat split; try assumption; try congruence).
     destruct (write_field c1 ob (dst (r)) (fst e) fld (snd e) (VNode (jget doc rest)) (ins r) HS' Hd Hf) as (c' & E & K).
+    { apply Ha. exact Hlc. }
+    exists c'. split; [exact E|]. exact K.
+  - assert (Hns : nonempty (src r) = true) by (destruct (src r); [discriminate Hs|reflexivity]).
+    rewrite (follow_path_assign f r c Ht Hcb Hg Hst Hnd Hns Hm).
+    destruct HS as (Hce & Hlc & Hvs & Hob & Hoth).
+    unfold ctx_get. rewrite Hsub.
+    destruct (src r) as [|s0' s'] eqn:Es; [discriminate|].
+    change (vars (w_bufX c VNil)) with (vars c).
+    assert (Hne : vars c <> []) by (rewrite Hvs; exact Hne0).
+    destruct (vars c) as [|v0 vr] eqn:Ev; [congruence|].
+    rewrite Hvs, Hs, Hv.
+    assert (E1 : match x with
+                 | VNode j => (w_bufX (w_bufX c VNil) (VNode (jget j rest)), VNode (jget j rest))
+                 | _ => (w_cerr (w_bufX (w_bufX c VNil) x) None, x)
+                 end = (w_cerr (w_bufX (w_bufX c VNil) x) None, x)).
+    { destruct x; try reflexivity. exfalso. eapply Hnn. reflexivity. }
+    assert (E2 : (match x with
+                  | VNode j => (w_bufX (w_bufX c VNil) (VNode (jget j rest)), VNode (jget j rest))
+                  | _ => match ins_getto (w_bufX c VNil) InsStatic x rest with
+                         | GVal y => (w_cerr (w_bufX (w_bufX c VNil) y) None, y)
+                         | GUntouched => (w_cerr (w_bufX c VNil) None, VNil)
+                         | GErr e0 => (w_cerr (w_bufX c VNil) (Some e0), VNil)
+                         end
+                  end) = (w_cerr (w_bufX (w_bufX c VNil) x) None, x)).
+    { destruct x; try reflexivity. exfalso. eapply Hnn. reflexivity. }
+    destruct x; try (exfalso; eapply Hnn; reflexivity);
+      cbn [ins_getto cerr w_cerr w_bufX];
+      match goal with |- exists c', ctx_set_path U ?c1 _ ?xx _ = _ /\ _ =>
+        assert (HS' : St c1 ob) by (unfold St; cbn [cerr bufLC vars store w_bufX w_cerr]; repeat split; try assumption; try congruence);
+        destruct (write_field c1 ob (dst r) (fst e) fld (snd e) xx (ins r) HS' Hd Hf) as (c' & E & K);
+        [apply Ha; exact Hlc|exists c'; split; [exact E|exact K]]
+      end.
+  - assert (Hns : nonempty (src r) = true) by (destruct (src r); [discriminate Hs|reflexivity]).
+    rewrite (follow_path_assign f r c Ht Hcb Hg Hst Hnd Hns Hm).
+    destruct HS as (Hce & Hlc & Hvs & Hob & Hoth).
+    unfold ctx_get. rewrite Hsub.
+    destruct (src r) as [|s0' s'] eqn:Es; [discriminate|].
+    change (vars (w_bufX c VNil)) with (vars c).
+    assert (Hne : vars c <> []) by (rewrite Hvs; exact Hne0).
+    destruct (vars c) as [|v0 vr] eqn:Ev; [congruence|].
+    rewrite Hvs, Hs, Hv. cbn [ins_getto store w_bufX]. rewrite (Hoth oid2 Hne2), Ho2, Hr.
+    cbn [cerr w_cerr w_bufX].
+    set (c1 := w_cerr (w_bufX (w_bufX c VNil) (val_of_fval fl)) None).
+    assert (HS' : St c1 ob) by (unfold St, c1; cbn [cerr bufLC vars store w_bufX w_cerr]; repeat split; try assumption; try congruence).
+    destruct (write_field c1 ob (dst r) (fst e) fld (snd e) (val_of_fval fl) (ins r) HS' Hd Hf) as (c' & E & K).
     { apply Ha. exact Hlc. }
     exists c'. split; [exact E|]. exact K.
 Qed.
@@ -178,7 +236,7 @@ Theorem independent_block f l : forall c ob,
 Proof.
   induction l as [|p l IH]; intros c ob HS HB.
   - exists c. cbn. split; [reflexivity|]. split; [exact HS|]. split; [|split; reflexivity].
-    destruct HS as (_ & _ & _ & Hob). clear - Hob. revert Hob. generalize (store c) as s. intro s. revert oid.
+    destruct HS as (_ & _ & _ & Hob & _). clear - Hob. revert Hob. generalize (store c) as s. intro s. revert oid.
     induction s as [|a s IHs]; intros [|i] H; simpl in *; try discriminate; [congruence|]. f_equal. apply IHs. exact H.
   - destruct HB as (HF & HN). pose proof (block_writes_tail ob p l (conj HF HN)) as HB'.
     inversion HF as [|? ? Hp HF']; subst.
@@ -294,8 +352,8 @@ Proof.
   destruct (independent_block f l' c ob HS HB') as (c2 & E2 & HS2 & Hst2 & Ht2 & _).
   assert (EF : fold_left upd (map snd l) ob = fold_left upd (map snd l') ob).
   { apply fold_upd_perm; [apply Permutation_map; exact HP|eapply block_nodup; exact HB|apply block_keys_present; exact HB]. }
-  exists c1, c2. destruct HS as (Hce & Hlc & Hvs & Hob).
-  destruct HS1 as (_ & Hlc1 & Hvs1 & Hob1). destruct HS2 as (_ & Hlc2 & Hvs2 & _).
+  exists c1, c2. destruct HS as (Hce & Hlc & Hvs & Hob & _).
+  destruct HS1 as (_ & Hlc1 & Hvs1 & Hob1 & _). destruct HS2 as (_ & Hlc2 & Hvs2 & _).
   repeat (split; [first [exact E1|exact E2|congruence]|]).
   exists (fold_left upd (map snd l) ob). split; [exact Hob1|]. split; [|split].
   - intros p Hp. apply (fold_upd_same (map snd l) ob (snd p)).
